@@ -403,12 +403,9 @@ def takeTournament (vars : Vars) : Res (Bool × Vars) :=
   | some b => .ok (b, vars')
   | none => .err .typeParse
 
-/-- everything `query` does with the packets -/
-def buildResponse (packets : List Bytes) : Res Response := do
-  let first ← okOr packets.head? .packetBad
-  let (vars, remaining) ← dataToMap first
-  -- `packets[1 ..]`: cannot be out of range, `packets` is not empty here
-  let (players, teams) ← parsePlayersAndTeams (remaining :: packets.drop 1)
+/-- the typed fields of the response from the variables, in the order `query` takes them; what is
+left is `unused_entries` -/
+def buildFields (vars : Vars) (players : List Player) (teams : List Team) : Res Response := do
   let (maxText, vars) ← takeReq vars "maxplayers"
   let playersMaximum ← parseU 32 maxText
   let (playersMinimum, vars) ← takeMin vars
@@ -421,6 +418,14 @@ def buildResponse (packets : List Bytes) : Res Response := do
   let (tournament, vars) ← takeTournament vars
   pure { name, map, hasPassword, gameMode, gameVersion, playersMaximum, playersOnline, playersMinimum,
          players, teams, tournament, unusedEntries := vars }
+
+/-- everything `query` does with the packets -/
+def buildResponse (packets : List Bytes) : Res Response := do
+  let first ← okOr packets.head? .packetBad
+  let (vars, remaining) ← dataToMap first
+  -- `packets[1 ..]`: cannot be out of range, `packets` is not empty here
+  let (players, teams) ← parsePlayersAndTeams (remaining :: packets.drop 1)
+  buildFields vars players teams
 
 /-- `gamespy::three::query` -/
 def query (port retries : Nat) : Q Response := do
